@@ -32,6 +32,10 @@ pub(crate) struct Parser<'t> {
     /// `steps` is advanced in `nth()` and is reset in `do_bump()`
     /// `steps` records a lookahead.
     steps: Cell<u32>,
+
+    /// Verification hook: number of look-aheads and events since the last consumed token.
+    #[cfg(feature = "oq3_verif")]
+    verif_idle: Cell<u32>,
 }
 
 static PARSER_STEP_LIMIT: Limit = Limit::new(15_000_000);
@@ -43,7 +47,24 @@ impl<'t> Parser<'t> {
             pos: 0,
             events: Vec::new(),
             steps: Cell::new(0),
+            #[cfg(feature = "oq3_verif")]
+            verif_idle: Cell::new(0),
         }
+    }
+
+    /// Verification hook: count one look-ahead or pushed event that did not consume input.
+    /// A terminating parse performs a bounded number of these between two consumed tokens,
+    /// so reaching the limit means a grammar loop is making no progress.
+    #[cfg(feature = "oq3_verif")]
+    #[inline]
+    fn verif_tick(&self, is_event: bool) {
+        let idle = self.verif_idle.get() + 1;
+        self.verif_idle.set(idle);
+        crate::verif::record(is_event, idle);
+        assert!(
+            idle < crate::verif::IDLE_LIMIT,
+            "oq3_verif: parser made no progress"
+        );
     }
 
     /// Move `events` out of this `Parser`.
@@ -68,6 +89,8 @@ impl<'t> Parser<'t> {
     /// If parser has already reached the end of input,
     /// the special `EOF` kind is returned.
     pub(crate) fn current(&self) -> SyntaxKind {
+        #[cfg(feature = "oq3_verif")]
+        self.verif_tick(false);
         // This has the same effect as self.nth(0)
         self.inp.kind(self.pos)
     }
@@ -75,6 +98,8 @@ impl<'t> Parser<'t> {
     /// Lookahead operation: returns the kind of the next nth
     /// token.
     pub(crate) fn nth(&self, n: usize) -> SyntaxKind {
+        #[cfg(feature = "oq3_verif")]
+        self.verif_tick(false);
         assert!(n <= 3);
 
         let steps = self.steps.get();
@@ -95,6 +120,8 @@ impl<'t> Parser<'t> {
     /// Checks if the `n`th token from the current position is `kind`.
     /// If `kind` is a composite token, it is interpreted as single token.
     pub(crate) fn nth_at(&self, n: usize, kind: SyntaxKind) -> bool {
+        #[cfg(feature = "oq3_verif")]
+        self.verif_tick(false);
         match kind {
             T![-=] => self.at_composite2(n, T![-], T![=]),
             T![->] => self.at_composite2(n, T![-], T![>]),
@@ -292,10 +319,17 @@ impl<'t> Parser<'t> {
     fn do_bump(&mut self, kind: SyntaxKind, n_raw_tokens: u8) {
         self.pos += n_raw_tokens as usize;
         self.steps.set(0);
+        #[cfg(feature = "oq3_verif")]
+        {
+            self.verif_idle.set(0);
+            crate::verif::record_bump();
+        }
         self.push_event(Event::Token { kind, n_raw_tokens });
     }
 
     fn push_event(&mut self, event: Event) {
+        #[cfg(feature = "oq3_verif")]
+        self.verif_tick(true);
         self.events.push(event);
     }
 }
